@@ -275,4 +275,127 @@ Section Shape.
     pose proof (way_feature_key _ _ _ _ Hf) as Hk. unfold fkey in Hk. injection Hk as Ht _. exact Ht.
   Qed.
 
+  (* ---------- at most one feature per element ---------- *)
+  Lemma NoDup_app_intro {A} (a b : list A) :
+    NoDup a -> NoDup b -> (forall x, In x a -> ~ In x b) -> NoDup (a ++ b).
+  Proof.
+    induction a as [|x a IH]; intros Ha Hb Hd; cbn; [exact Hb|].
+    inversion Ha as [|? ? Hx Ha']; subst. constructor.
+    - rewrite in_app_iff. intros [H|H]; [exact (Hx H)|exact (Hd x (or_introl eq_refl) H)].
+    - apply IH; [exact Ha'|exact Hb|]. intros y Hy. apply Hd. right. exact Hy.
+  Qed.
+
+  Lemma NoDup_map_inj_in {A B} (f : A -> B) (l : list A) a b :
+    NoDup (map f l) -> In a l -> In b l -> f a = f b -> a = b.
+  Proof.
+    induction l as [|x l IH]; cbn; intros Hn Ha Hb He; [tauto|].
+    inversion Hn as [|? ? Hx Hn']; subst.
+    destruct Ha as [->|Ha], Hb as [->|Hb]; try reflexivity.
+    - exfalso. apply Hx. rewrite He. apply in_map. exact Hb.
+    - exfalso. apply Hx. rewrite <- He. apply in_map. exact Ha.
+    - apply IH; assumption.
+  Qed.
+
+  Lemma NoDup_flat_map_inj_in {A B} (f : A -> list B) (l : list A) a b k :
+    NoDup (flat_map f l) -> In a l -> In b l -> In k (f a) -> In k (f b) -> NoDup l -> a = b.
+  Proof.
+    induction l as [|x l IH]; cbn; intros Hn Ha Hb Hka Hkb Hl; [tauto|].
+    inversion Hl as [|? ? Hx Hl']; subst.
+    assert (Hsplit : NoDup (f x) /\ NoDup (flat_map f l) /\ (forall y, In y (f x) -> ~ In y (flat_map f l))).
+    { clear -Hn. induction (f x) as [|y ys IHy]; cbn in Hn.
+      - split; [constructor|]. split; [exact Hn|]. intros y [].
+      - inversion Hn as [|? ? Hy Hn']; subst. destruct (IHy Hn') as [H1 [H2 H3]].
+        split; [constructor; [intros Hin; apply Hy; apply in_or_app; left; exact Hin|exact H1]|].
+        split; [exact H2|]. intros z [<-|Hz]; [intros Hin; apply Hy; apply in_or_app; right; exact Hin|apply H3; exact Hz]. }
+    destruct Hsplit as [_ [Hn2 Hdisj]].
+    destruct Ha as [->|Ha], Hb as [->|Hb]; try reflexivity.
+    - exfalso. apply (Hdisj k Hka). apply in_flat_map. exists b. split; assumption.
+    - exfalso. apply (Hdisj k Hkb). apply in_flat_map. exists a. split; assumption.
+    - apply (IH Hn2 Ha Hb Hka Hkb Hl').
+  Qed.
+
+  (* features produced one per source item: distinct keys when sources with equal keys coincide *)
+  Lemma NoDup_keys_olist {A} (g : A -> option feature) (l : list A) :
+    NoDup l ->
+    (forall a b x y, In a l -> In b l -> g a = Some x -> g b = Some y -> fkey x = fkey y -> a = b) ->
+    NoDup (map fkey (flat_map (fun a => olist (g a)) l)).
+  Proof.
+    induction l as [|a l IH]; intros Hl Hinj; cbn; [constructor|].
+    inversion Hl as [|? ? Ha Hl']; subst.
+    assert (IH' : NoDup (map fkey (flat_map (fun a => olist (g a)) l))).
+    { apply IH; [exact Hl'|]. intros x y fx fy Hx Hy. apply Hinj; right; assumption. }
+    rewrite map_app. destruct (g a) as [fa|] eqn:Hga; cbn; [|exact IH'].
+    constructor; [|exact IH'].
+    intros Hin. apply in_map_iff in Hin. destruct Hin as [fb [Hk Hfb]].
+    apply in_flat_map in Hfb. destruct Hfb as [b [Hb Hgb]].
+    destruct (g b) as [fb'|] eqn:Hgb'; cbn in Hgb; [|tauto]. destruct Hgb as [->|[]].
+    assert (a = b) as <-.
+    { apply (Hinj a b fa fb); [left; reflexivity|right; exact Hb|exact Hga|exact Hgb'|symmetry; exact Hk]. }
+    exact (Ha Hb).
+  Qed.
+
+  (* the hypothesis the proof needs: no way is the adoption candidate of two relations *)
+  Definition adoption_unique (d : osm) : Prop := NoDup (flat_map adopt_candidate (relations d)).
+  Definition ids_unique (d : osm) : Prop :=
+    NoDup (map n_id (nodes d)) /\ NoDup (map w_id (ways d)) /\ NoDup (map r_id (relations d)).
+
+  Theorem at_most_one_feature_per_element o d :
+    ids_unique d -> adoption_unique d -> NoDup (map fkey (convert o d)).
+  Proof.
+    intros [Hn [Hw Hr]] Hadopt. unfold Model.convert. rewrite !map_app.
+    apply NoDup_app_intro; [|apply NoDup_app_intro|].
+    - (* relation pass *)
+      unfold Model.rel_features. apply NoDup_keys_olist; [exact (NoDup_map_inv _ _ Hr)|].
+      intros r s x y Hrl Hsl Hx Hy Hk.
+      destruct (rel_result_key _ _ _ _ Hx) as [Kx|[wx [Cx Kx]]];
+        destruct (rel_result_key _ _ _ _ Hy) as [Ky|[wy [Cy Ky]]]; rewrite Kx, Ky in Hk.
+      + injection Hk as Hid. exact (NoDup_map_inj_in r_id _ _ _ Hr Hrl Hsl Hid).
+      + discriminate.
+      + discriminate.
+      + injection Hk as ->.
+        apply (NoDup_flat_map_inj_in adopt_candidate (relations d) r s wy Hadopt Hrl Hsl);
+          [rewrite Cx; left; reflexivity|rewrite Cy; left; reflexivity|exact (NoDup_map_inv _ _ Hr)].
+    - (* way pass *)
+      unfold Model.way_features.
+      rewrite (flat_map_ext _ (fun w => olist (if memZ (w_id w) (skippable o d) then None else way_feature o d w)))
+        by (intros w; destruct (memZ _ _); reflexivity).
+      apply (NoDup_keys_olist (fun w => if memZ (w_id w) (skippable o d) then None else way_feature o d w)).
+      + exact (NoDup_map_inv _ _ Hw).
+      + intros a b x y Ha Hb Hx Hy Hk.
+        destruct (memZ (w_id a) (skippable o d)); [discriminate|].
+        destruct (memZ (w_id b) (skippable o d)); [discriminate|].
+        rewrite (way_feature_key _ _ _ _ Hx), (way_feature_key _ _ _ _ Hy) in Hk. injection Hk as Hid.
+        exact (NoDup_map_inj_in w_id _ _ _ Hw Ha Hb Hid).
+    - (* node pass *)
+      unfold node_features.
+      rewrite (flat_map_ext _ (fun n => olist (if node_emitted o d n then node_feature o d n else None)))
+        by (intros n; destruct (node_emitted _ _ _); reflexivity).
+      apply (NoDup_keys_olist (fun n => if node_emitted o d n then node_feature o d n else None)).
+      + exact (NoDup_map_inv _ _ Hn).
+      + intros a b x y Ha Hb Hx Hy Hk.
+        destruct (node_emitted o d a); [|discriminate]. destruct (node_emitted o d b); [|discriminate].
+        rewrite (node_feature_key _ _ _ _ Hx), (node_feature_key _ _ _ _ Hy) in Hk. injection Hk as Hid.
+        exact (NoDup_map_inj_in n_id _ _ _ Hn Ha Hb Hid).
+    - (* way pass vs node pass *)
+      intros k Hkw Hkn. apply in_map_iff in Hkw. destruct Hkw as [f [<- Hf]].
+      apply in_map_iff in Hkn. destruct Hkn as [g [Hk Hg]].
+      pose proof (way_feature_type _ _ _ Hf) as Tf.
+      destruct (node_features_in _ _ _ Hg) as [n [_ [_ Hng]]].
+      pose proof (node_feature_key _ _ _ _ Hng) as Kg. rewrite Hk in Kg. unfold fkey in Kg.
+      injection Kg as Kt _. congruence.
+    - (* relation pass vs the other two *)
+      intros k Hkr Hko. apply in_map_iff in Hkr. destruct Hkr as [f [<- Hf]].
+      rewrite <- map_app in Hko. apply in_map_iff in Hko. destruct Hko as [g [Hk Hg]].
+      destruct (rel_features_in _ _ _ Hf) as [r [Hrl Hrf]].
+      apply in_app_or in Hg. destruct Hg as [Hg|Hg].
+      + destruct (way_features_in _ _ _ Hg) as [w [Hwl [Hskip Hwf]]].
+        pose proof (way_feature_key _ _ _ _ Hwf) as Kg. rewrite Hk in Kg.
+        pose proof (rel_result_adopts_skips _ _ _ _ _ Hrf Kg) as Hin.
+        assert (Hs : In (w_id w) (skippable o d)).
+        { unfold Model.skippable. apply in_flat_map. exists r. split; assumption. }
+        apply memZ_In in Hs. congruence.
+      + destruct (node_features_in _ _ _ Hg) as [n [_ [_ Hng]]].
+        pose proof (node_feature_key _ _ _ _ Hng) as Kg. rewrite Hk in Kg.
+        apply (rel_feature_type _ _ _ Hf). unfold fkey in Kg. injection Kg as Kt _. exact Kt.
+  Qed.
 End Shape.
